@@ -2,7 +2,8 @@
 # recheck.sh <seeded-id> <property> [tier]  — apply a stored seeded change to /repo, run the check, undo
 id=$1; p=$2; tier=${3:-quick}
 cd /repo && git status --porcelain | grep -q . && { echo "/repo not clean"; exit 3; }
+trap 'git -C /repo checkout -- .' EXIT INT TERM PIPE
 git apply /verif/seeded/$id/patch.diff || exit 3
-cd /verif && timeout 3600 bin/vcheck $p $tier 2>&1 | grep -E "^(VIOLATION|INCONCLUSIVE|  replay|$p )" | head -8
-echo "exit=$?"
-cd /repo && git checkout -- .
+cd /verif && timeout 3600 bin/vcheck $p $tier > /verif/.work/recheck.out 2>&1
+git -C /repo checkout -- .
+grep -E "^(VIOLATION|INCONCLUSIVE|  replay|$p )" /verif/.work/recheck.out | head -8
